@@ -169,6 +169,8 @@ def two_pullers(chk, prog):
 
 
 def sel(T):
+    if T.name.startswith('grpc:') and T.name not in ('grpc:Pull', 'grpc:ModifyAckDeadline'):
+        return []
     if T.kind in ('pull', 'delay'):
         return [O.c04_lease]
     if T.kind == 'nack':
